@@ -25,10 +25,17 @@ def cases(tier):
           5: ['qtreetbl_putobj', 'qtreetbl_getobj', 'qtreetbl_removeobj', 'qtreetbl_clear', 'qtreetbl_lock', 'qtreetbl_unlock']}
     for cont, name in ((3, 'listtbl'), (4, 'hashtbl'), (5, 'tree')):
         for (a, b) in MPAIRS:
-            if cont == 5 and tier == 'quick' and not (b in ('GET', 'SIZE') and a in ('PUT', 'REMOVE', 'CLEAR')):
-                continue   # tree: pairs with two mutators are heavy (two symbolic restructurings): thorough tier only
             for n0 in ((1,) if (cont == 5 and tier == 'quick') else (1, 2)):
                 for (x, y) in ((a, b), (b, a)) if a != b else ((a, b),):
+                    if cont == 5 and tier == 'quick' and (x, y) == ('REMOVE', 'REMOVE'):
+                        continue   # 160-190 s per scheduling point even on a one-key tree: thorough tier
+                    if cont == 5:
+                        # tree: scheduling point constant per query (one symbolic restructuring by T2 per query instead of one per point)
+                        for sp in (0, 1, 2, 3, 4, 99):
+                            out.append(Case('c13.%s.%s_%s.n%d.s%d' % (name, x, y, n0, sp), 'schedmap.c', {'VF_CONT': cont, 'VF_OP1': MOPS[x], 'VF_OP2': MOPS[y], 'VF_N0': n0, 'VF_SCHED': sp}, unwind=8,
+                                            unwindset={'put_obj': 4, 'remove_obj': 4, 'remove_min': 4, 'free_objs': 4}, checks='func', timeout=600, funcs=MF[cont], object_bits=10,
+                                            desc='%s: T1=%s overlapped by T2=%s at scheduling point %d (0 before, k = k-th outermost lock acquire/release of T1, 99 after), %d initial keys; keys/values symbolic' % (name, x, y, sp, n0)))
+                        continue
                     out.append(Case('c13.%s.%s_%s.n%d' % (name, x, y, n0), 'schedmap.c', {'VF_CONT': cont, 'VF_OP1': MOPS[x], 'VF_OP2': MOPS[y], 'VF_N0': n0}, unwind=8,
                                     unwindset={'put_obj': 4, 'remove_obj': 4, 'remove_min': 4, 'free_objs': 4}, checks='func', timeout=600 if tier == 'quick' else 1800, funcs=MF[cont],
                                     desc='%s: T1=%s overlapped by T2=%s at a solver-chosen scheduling point, %d initial keys; keys/values symbolic' % (name, x, y, n0)))
@@ -41,7 +48,7 @@ def cases(tier):
 
 def meta(tier):
     return {'level': 'model_checking',
-            'bounds': 'two logical threads, one call each; vector and list with 0..%d initial one-byte elements, list table (UNIQUE), hash table (range 2) and tree table with 1..2 initial keys out of {a,b}; T2 injected at any outermost lock acquisition/release of T1 (or before/after); indexes over the whole int range' % (2 if tier == 'quick' else 3),
+            'bounds': 'two logical threads, one call each; vector and list with 0..%d initial one-byte elements, list table (UNIQUE), hash table (range 2) and tree table with 1..2 initial keys out of {a,b}; T2 injected at any outermost lock acquisition/release of T1 (or before/after; for the tree table the scheduling point is a per-query constant 0,1..4,99); indexes over the whole int range' % (2 if tier == 'quick' else 3),
             'outside': ['more than two threads / more than one call per thread', 'Q_MUTEX_ENTER is checked with MAX_MUTEX_LOCK_WAIT scaled from 5000 to 3 (thorough: 40) by the guarded hook (5000: no verdict in 20 min); the macro uses the constant only as the spin bound', 'map containers: only putstr/getstr(copy)/remove/size/clear over two keys; walks under the container lock are not encoded',
                         'randomised long stress schedules on a race-detecting build; data races without an observable non-linearizable outcome; memory-model effects', 'interleavings INSIDE a critical section (excluded by mutual exclusion, which is assumed from pthread)'],
             'stubs': ['lock model of stubs.h with scheduling hook (trylock always succeeds for the running logical thread; T2 runs only when T1 holds no lock)', 'allocator shim (never fails)'],
